@@ -756,9 +756,12 @@ func (n *Node) unRefInternal(updateStat bool) {
 	}
 }
 
-func (n *Node) unRefExternal() {
+func (n *Node) unRefExternal(locked bool) {
 	if atomic.AddInt32(&n.ref, -1) == 0 {
-		n.r.mu.RLock()
+		if !locked {
+			n.r.mu.RLock()
+			defer n.r.mu.RUnlock()
+		}
 		if n.r.closed {
 			// A Get that was in flight when the cache got closed may have
 			// taken a new handle to this node meanwhile.
@@ -769,7 +772,6 @@ func (n *Node) unRefExternal() {
 			n.r.delete(n)
 			atomic.AddInt64(&n.r.statDel, 1)
 		}
-		n.r.mu.RUnlock()
 	}
 }
 
@@ -793,7 +795,20 @@ func (h *Handle) Release() {
 	nPtr := atomic.LoadPointer(&h.n)
 	if nPtr != nil && atomic.CompareAndSwapPointer(&h.n, nPtr, nil) {
 		n := (*Node)(nPtr)
-		n.unRefExternal()
+		n.unRefExternal(false)
+	}
+}
+
+// releaseLocked is Release for the handles the built-in cacher gives up in
+// Promote, Ban and Evict. Those run inside Cache.Get, Delete and Evict*, which
+// hold the read lock already: taking it again would deadlock with a Close
+// that is waiting for the write lock in between. (Close itself evicts after
+// it has marked the cache closed, which is all the lock protects here.)
+func (h *Handle) releaseLocked() {
+	nPtr := atomic.LoadPointer(&h.n)
+	if nPtr != nil && atomic.CompareAndSwapPointer(&h.n, nPtr, nil) {
+		n := (*Node)(nPtr)
+		n.unRefExternal(true)
 	}
 }
 
